@@ -3,7 +3,7 @@
 
 use crate::gen;
 use crate::mon::{self, fail, guard, Ctx, Fail};
-use crate::obs::{obs_li, obs_loc, order_facts};
+use crate::obs::{obs_li, obs_loc, order_facts, repr_facts, repr_facts_li};
 use crate::refspec::{self, classify_langid, classify_locale, LiVerdict, Zone};
 use crate::rng::{mix, Rng};
 use crate::stream::{byte_stream, StreamCfg};
@@ -32,6 +32,9 @@ pub fn c02_check(input: &[u8]) -> Vec<Fail> {
             let s = li.to_string();
             if s != e.canon() {
                 out.push(fail("accept-string", format!("expected {:?}, to_string() = {:?}", e.canon(), s)));
+            }
+            for f in repr_facts_li(li) {
+                out.push(fail("accept-representation", format!("{} (parsed {:?})", f, li)));
             }
         }
         (LiVerdict::Accept(e), Ok(Err(err))) => out.push(fail(
@@ -135,6 +138,9 @@ pub fn c03_check(input: &[u8]) -> Vec<Fail> {
             }
             for b in order_facts(l) {
                 out.push(fail("accept-order", b));
+            }
+            for b in repr_facts(l) {
+                out.push(fail("accept-representation", format!("{} (parsed {:?})", b, l)));
             }
         }
         (Zone::MustAccept(e), Ok(Err(err))) => out.push(fail(
